@@ -17,4 +17,5 @@ let () =
   match Sys.argv.(1) with
   | "names" -> names ()
   | "fs" -> Fsdrv.run ()
+  | "adapters" -> Adrv.run ()
   | m -> prerr_endline ("unknown mode " ^ m); exit 2
